@@ -2,7 +2,8 @@
 From Coq Require Import List ZArith Lia Bool.
 Require Import Avro.Model.Base Avro.Model.Prim Avro.Model.Schema Avro.Model.GoType
                Avro.Model.Codec Avro.Model.Layout.
-Require Import Avro.Proofs.LayoutP.
+Require Import Avro.Model.Typing.
+Require Import Avro.Proofs.LayoutP Avro.Proofs.TypedP Avro.Proofs.CtypeP.
 Import ListNotations.
 Open Scope Z_scope.
 
@@ -22,6 +23,20 @@ Theorem C05_standard_registry_sane : reg_sane reg_std /\
   (forall reg id k, reg_sane reg -> reg_sane (reg_set reg id (BCustom k))).
 Proof. split; [exact reg_std_sane|exact reg_set_sane]. Qed.
 Print Assumptions C05_standard_registry_sane.
+
+(* ... with a value of that field's own type: for ANY byte string (valid or not)
+   and any destination of Go type t, a built decoder either fails or returns a
+   value of type t — at every level (struct fields, elements, map values,
+   pointees) — and it never panics. *)
+Theorem C05_typed : forall reg, reg_sane reg ->
+  forall s t om c fuel dest bs, build reg s (Some t) om = Some c -> wt t dest ->
+  c_read fuel c dest bs <> Panic /\ (forall v r, c_read fuel c dest bs = Done v r -> wt t v).
+Proof. exact built_codec_safe. Qed.
+Print Assumptions C05_typed.
+
+Theorem C05_zero_is_typed : forall t, wt t (zero_of t).
+Proof. exact zero_wt. Qed.
+Print Assumptions C05_zero_is_typed.
 
 (* Mismatched pairs are rejected when the decoder is built.  The table below is
    the specification of what is compatible for an unregistered, pointer-free Go
